@@ -172,6 +172,9 @@ func (l *tLink) client(cfg clientCfg) (endpoint, func() connState) {
 			c.VerifyConnection = func(tlcp.ConnectionState) error { return vc() }
 		}
 	}
+	if cfg.rnd != nil {
+		c.Rand = cfg.rnd
+	}
 	conn := tlcp.Client(l.ce, c)
 	return conn, func() connState {
 		st := conn.ConnectionState()
@@ -184,6 +187,9 @@ func (l *tLink) serverConfig(cfg serverCfg) *tlcp.Config {
 		ClientCAs: pki.Std().Root.Pool, Time: pki.NowFn}
 	if cfg.cache != nil {
 		c.SessionCache = cfg.cache.(tlcp.SessionCache)
+	}
+	if r := newLogRand(cfg.rnd); r != nil {
+		c.Rand = r
 	}
 	return c
 }
@@ -220,12 +226,15 @@ func (t *tScript) Send(kind string, o scriptOpts) error {
 func (t *tScript) SendCCS() error             { return t.s.SendCCS() }
 func (t *tScript) SendAppData(p []byte) error { return t.s.SendAppData(p) }
 func (t *tScript) PeerFinishedOK() bool       { return t.s.PeerFinishedOK }
-func (t *tScript) WriteProtected() bool       { return t.s.WriteProtected() }
-func (t *tScript) HasMaster() bool            { return len(t.s.Master()) > 0 }
-func (t *tScript) HeaderLen() int             { return 4 }
-func (t *tScript) OfferedSessionID() []byte   { return t.s.OfferedSessionID() }
-func (t *tScript) SetResumeMaster(m []byte)   { t.s.ResumeMaster = m }
-func (t *tScript) Master() []byte             { return t.s.Master() }
+func (t *tScript) GuessPreMaster(n int, cand func(int) []byte) int {
+	return t.s.GuessPreMaster(n, cand)
+}
+func (t *tScript) WriteProtected() bool     { return t.s.WriteProtected() }
+func (t *tScript) HasMaster() bool          { return len(t.s.Master()) > 0 }
+func (t *tScript) HeaderLen() int           { return 4 }
+func (t *tScript) OfferedSessionID() []byte { return t.s.OfferedSessionID() }
+func (t *tScript) SetResumeMaster(m []byte) { t.s.ResumeMaster = m }
+func (t *tScript) Master() []byte           { return t.s.Master() }
 
 // ---------------------------------------------------------------------------- DTLCP
 
@@ -261,6 +270,9 @@ func (l *dLink) client(cfg clientCfg) (endpoint, func() connState) {
 			c.VerifyConnection = func(dtlcp.ConnectionState) error { return vc() }
 		}
 	}
+	if cfg.rnd != nil {
+		c.Rand = cfg.rnd
+	}
 	conn := dtlcp.Client(l.ce, l.se.LocalAddr(), c)
 	return conn, func() connState {
 		st := conn.ConnectionState()
@@ -273,6 +285,9 @@ func (l *dLink) serverConfig(cfg serverCfg) *dtlcp.Config {
 		ClientCAs: pki.Std().Root.Pool, Time: pki.NowFn, InitialRetransmitTimeout: dRetransmit, MaxRetransmitTimeout: dRetransmit}
 	if cfg.cache != nil {
 		c.SessionCache = cfg.cache.(dtlcp.SessionCache)
+	}
+	if r := newLogRand(cfg.rnd); r != nil {
+		c.Rand = r
 	}
 	return c
 }
